@@ -423,7 +423,7 @@ def run(ctx):
             spec = dict(stream_hex=stream.hex(), model=model, n_messages=len(expected), definitions=stats['defs'],
                         extra_segments=[(fl, sg.hex()) for fl, sg in stats.get('extra_segments', [])])
             try:
-                variant = ['default', 'default', 'filter', 'continue', 'unwired', 'filter'][q % 6]
+                variant = ['default', 'lookahead', 'filter', 'continue', 'unwired', 'lookahead', 'default', 'filter'][q % 8]
                 ctx.add('scan_variants', variant)
                 spec['scan_variant'] = variant
                 p = subprocess.run([sys.executable, '-m', 'mon.c20_runner', hf, variant], capture_output=True, timeout=180, env=env,
@@ -460,6 +460,33 @@ def run(ctx):
                 ctx.evaluated(stream.hex(), True)
                 ctx.violate('stream-message-count/%s' % multi, 'yielded %d messages, stream holds %d' % (len(out['messages']), len(expected)), spec)
                 continue
+            # what another decoder read, from inside the loop body, for the message FOLLOWING the one the scan was suspended at
+            for mi, om in enumerate(out['messages'][:-1]):
+                la, em = om.get('lookahead'), expected[mi + 1]
+                if la is None or em is None:
+                    continue
+                ctx.count('lookahead_decodes_compared')
+                after_def = expected[mi] is None
+                if after_def:
+                    ctx.count('lookahead_decodes_right_after_a_definition_message')
+                ctx.evaluated((stream.hex(), 'lookahead', mi), True)
+                bad = None
+                if 'error' in la:
+                    bad = ('raises ' + la['error'].split(':')[0],)
+                elif len(la['values']) != len(em.subsets):
+                    bad = ('nsubsets',)
+                else:
+                    for s2, rs in enumerate(em.subsets):
+                        d = diff_subset(la['labels'][s2], [dec_val(v) for v in la['values'][s2]], {int(a): b for a, b in la['links'][s2]}, rs)
+                        if d:
+                            bad = (d[0], s2) + d[1:]
+                            break
+                if bad:
+                    ctx.violate('data-after-definition/decoded-while-the-scan-is-suspended/%s/%s' % (str(bad[0]).replace(' ', '-'), 'right-after-definition' if after_def else 'later'),
+                                'message %d (ids %r) decoded by another decoder from the loop body, while the scan stood at message %d%s, differs from '
+                                'the model: %r' % (mi + 1, em.ids, mi, ' (a definition message)' if after_def else '', jsonable(bad)),
+                                dict(spec, message_index=mi + 1, ids=em.ids))
+                    break
             for mi, (om, em) in enumerate(zip(out['messages'], expected)):
                 if em is None:
                     continue
